@@ -267,13 +267,35 @@ def run_check(pid, tier):
         else:
             confirmed.append((f, label))
     rc = 0
+    post = None
+    if spec.get("post") == "c18_tables":
+        import post_c18
+        obs = []
+        for jo in out["jobs"]:
+            if jo["func"] == "VerifC18_Tables":
+                for w in jo.get("witnesses") or []:
+                    obs = w["Observe"] or []
+        post = post_c18.run(obs)
+        if not obs or post["queries"] < 800:
+            undecided.append("C18 table stage: observation log missing or too short (%d queries)" % post["queries"])
+        for v in post["violations"]:
+            if v["answer"] != "sat":
+                undecided.append("C18 table stage: solver answered %s for %s[%s]" % (v["answer"], v["table"], v["index"]))
+                continue
+            f = os.path.join(replay_dir, "table-%s-%s.json" % (v["table"], v["index"]))
+            json.dump({"property": pid, "table": v["table"], "index": v["index"], "what": v["what"],
+                       "note": "table entry produced by the real init code contradicts its analytic definition (QF_NRA, sat)"}, open(f, "w"), indent=1)
+            confirmed.append((f, "%s[%s]: %s" % (v["table"], v["index"], v["what"])))
     for k in kf:
         if k["id"] in known_hits:
             print("KNOWN-FINDING: property=%s %s (%s) replay=%s" % (pid, k["id"], k["what"], known_hits[k["id"]]))
         else:
             print("note: known finding %s was not reproduced at this bound" % k["id"])
-    for f, label in confirmed:
+    for f, label in confirmed[:12]:
         print("VIOLATION property=%s replay=%s label=%s" % (pid, f, label))
+    if len(confirmed) > 12:
+        print("... and %d more violations (see %s)" % (len(confirmed) - 12, replay_dir))
+    if confirmed:
         rc = 1
     if rc == 0 and undecided:
         for u in undecided[:10]:
@@ -284,7 +306,7 @@ def run_check(pid, tier):
         if not (jo.get("reached") or {}).get("end") and not jo.get("violations") and not jo.get("undecided"):
             print("UNDECIDED property=%s reason=vacuous harness %s %s (no path reached the end)" % (pid, jo["func"], jo["params"]))
             rc = max(rc, 2)
-    write_evidence(pid, tier, seed, t0, jobs, out, confirmed, list(known_hits), undecided, validated, kf)
+    write_evidence(pid, tier, seed, t0, jobs, out, confirmed, list(known_hits), undecided, validated, kf, post)
     s = summarize(out)
     print("%s %s: %d harness instances, %d paths, %d solver queries (%.1fs solver), %d witnesses validated natively, wall %.1fs -> %s" % (
         pid, tier, len(jobs), s["paths"], s["queries"], s["solver_s"], validated, time.time() - t0,
@@ -307,7 +329,7 @@ def summarize(out):
     return s
 
 
-def write_evidence(pid, tier, seed, t0, jobs, out, confirmed, known_hits, undecided, validated, kf):
+def write_evidence(pid, tier, seed, t0, jobs, out, confirmed, known_hits, undecided, validated, kf, post=None):
     spec = checks.CHECKS[pid]
     ev = {"property_id": pid, "tier": tier, "seed": seed, "level": "model_checking",
           "wall_s": round(time.time() - t0, 2), "violations": len(confirmed),
@@ -341,6 +363,10 @@ def write_evidence(pid, tier, seed, t0, jobs, out, confirmed, known_hits, undeci
             "known_findings_reproduced": known_hits,
             "known_findings_listed": [k["id"] for k in kf],
         })
+        if post is not None:
+            cov["real_arithmetic_stage"] = {"logic": "QF_NRA, for all r in a rational enclosure of 10^(1/20) of width 2^-90 (lo^20<=10<=hi^20 discharged as obligation 0)", "queries": post["queries"], "solver_s": post["solver_s"],
+                                            "table_entries": post["entries"], "refuted": len(post["violations"]), "samples": post["samples"]}
+            cov["transitions"] += post["queries"]
     else:
         cov.update({"states": 1, "transitions": 1, "traces_validated_against_impl": 0, "samples": [{"note": "engine failure"}],
                     "evaluations": 1, "distinct_nontrivial": 2, "undecided": undecided})
